@@ -8,8 +8,10 @@
 (b) for generated console->client frames of every kind and every error pattern of
     the three families - each single bit (exhaustive over covered bytes and check
     bytes), bit pairs (exhaustive for frames <= 24 bytes, sampled otherwise),
-    bursts of length 2..16 at every offset with generated interior -
-    `validate(covered', check')` is False.
+    bursts of length 2..16 at every offset with generated interior, contiguous in the
+    CRC's own serial order (bytes in order, LSB first, register low byte before high
+    byte: the order in which CRC-16 guarantees detection) - `validate(covered',
+    check')` is False.
 (c) end to end: the damaged frame, preceded and followed by intact frames, is fed to
     a live socket; oracle = the independent receive model (pav.refproto.parse_stream)
     run on the same bytes: the subscriber sees exactly the frames the model
@@ -118,10 +120,28 @@ def covered_span(gen: int, frame: bytes):
 
 
 def flip_bits(buf: bytes, bits) -> bytes:
+    """Flip bits given as frame-local indices (byte * 8 + k, k = 0 is the MSB)."""
     b = bytearray(buf)
     for i in bits:
         b[i >> 3] ^= 0x80 >> (i & 7)
     return bytes(b)
+
+
+def serial_to_bit(pos: int, cov: int) -> int:
+    """Map a position in the CRC's own serial order to a frame-local bit index.
+
+    CRC-16/MODBUS is a reflected CRC: data bytes are processed in order, each byte
+    least-significant bit first, and the natural continuation of the stream is the
+    register low byte then high byte, again LSB first.  The frame carries the check
+    value high byte first, so serial positions 8*cov .. 8*cov+7 (register bits 0..7)
+    live in the *second* check byte and 8*cov+8 .. 8*cov+15 in the first one.  A burst
+    of length <= 16 is guaranteed to be detected only if it is contiguous in this order."""
+    if pos < 8 * cov:
+        byte, k = divmod(pos, 8)
+        return byte * 8 + (7 - k)
+    r = pos - 8 * cov            # register bit 0..15
+    byte = cov + (1 if r < 8 else 0)
+    return byte * 8 + (7 - (r % 8))
 
 
 def check_patterns(gen: int, kind: str, frame: bytes, rnd_bits, stats: Stats, exhaustive_pairs: bool):
@@ -164,8 +184,8 @@ def check_patterns(gen: int, kind: str, frame: bytes, rnd_bits, stats: Stats, ex
                 interior = next(it)
             except StopIteration:
                 interior = 0
-            bits = [off, off + ln - 1] + [off + 1 + k for k in range(ln - 2) if (interior >> k) & 1]
-            test(tuple(sorted(set(bits))), "burst")
+            serial = [off, off + ln - 1] + [off + 1 + k for k in range(ln - 2) if (interior >> k) & 1]
+            test(tuple(sorted({serial_to_bit(p, cov) for p in serial})), "burst")
             n_burst += 1
     stats.evaluations += n_single + n_double + n_burst
     stats.nt_disjoint += n_single + n_double + n_burst
@@ -253,7 +273,9 @@ def _bits_of(pattern, nbits: int) -> list[int]:
     _, off, ln, interior = pattern
     ln = min(ln, nbits)
     off = off % (nbits - ln + 1)
-    return sorted({off, off + ln - 1} | {off + 1 + k for k in range(ln - 2) if (interior >> k) & 1})
+    cov = nbits // 8 - 2
+    serial = {off, off + ln - 1} | {off + 1 + k for k in range(ln - 2) if (interior >> k) & 1}
+    return sorted(serial_to_bit(p, cov) for p in serial)
 
 
 def _e2e_strategy(gen: int):
